@@ -418,7 +418,19 @@ func ruleTDANGLE(p *Program, r *Reporter) {
 					continue
 				}
 				sc := c.Call.StaticCallee()
-				if sc == nil || (sc.Name() != "rowExists" && sc.Name() != "NewReferentialIntegrityViolation") {
+				if sc == nil {
+					continue
+				}
+				isTest := sc.Name() == "rowExists" || sc.Name() == "NewReferentialIntegrityViolation"
+				if !isTest && pkgOf(sc) == "updates" && len(sc.Blocks) > 0 {
+					// a wrapper of the existence test (memoising, logging, ...)
+					for _, h := range p.Reach(sc) {
+						if h != sc && h.Name() == "rowExists" {
+							isTest = true
+						}
+					}
+				}
+				if !isTest {
 					continue
 				}
 				n++
